@@ -67,7 +67,7 @@ theorem decode_any_order (d d' : List (Bytes × BVal)) (hp : d'.Perm d) (h : WF 
     (hsz : (enc (.dict d')).length < 2^63) :
     decodeAll (enc (.dict d')) = some (.dict d') ∧ ∀ key, lookup key d' = lookup key d := by
   have hw := WF_dict_perm d d' hp h
-  have hrt := (C19_roundtrip (.dict d') [] hw (by simpa using hsz)).1
+  have hrt := (C19_roundtrip (.dict d') [] hw (by simpa using hsz)).2
   constructor
   · unfold decodeAll
     simp only [List.append_nil] at hrt
